@@ -36,7 +36,7 @@ theorem setAllowAskNoAck_post (e : Bool) (s : DrvState) (h : Inv s) :
   have hb := (bits_ack_f _ h.ok.feature).2.2.1 e
   unfold setAllowAskNoAck
   exec_simp [readVal_feature s h.ok.vis, hb.1]
-  rw [exec_regWrite_nat _ _ _ (by omega) (by decide)]
+  rw [exec_regWrite_nat3 _ _ _ (by omega) (by decide)]
   refine Post.of_reach (by reach h.wf) h.wf ?_ rfl ?_
   · rw [Radio.w_feature _ _ hb.2 h.ok.vis]; rfl
   · exact { h.cached with features := rfl }
@@ -57,7 +57,7 @@ theorem setAck_off_post (s : DrvState) (h : Inv s) :
   have hb := (bits_ack_f _ h.ok.feature).2.1
   unfold setAck
   exec_simp [Bool.false_eq_true, h.cached.features, hb.1]
-  rw [exec_regWrite_nat _ _ _ (by omega) (by decide)]
+  rw [exec_regWrite_nat3 _ _ _ (by omega) (by decide)]
   refine Post.of_reach (by reach h.wf) h.wf ?_ rfl ?_
   · rw [Radio.w_feature _ _ hb.2 h.ok.vis]; rfl
   · refine { h.cached with features := ?_ }
@@ -73,12 +73,12 @@ theorem setAck_on_post (s : DrvState) (h : Inv s) :
   have hf := (bits_ack_f _ h.ok.feature).1
   unfold setAck setAutoAck setAutoAckAttr
   exec_simp [h.wf, readVal_enAA, (by decide : (0:Int) ≤ 0 ∧ (0:Int) ≤ 5), Int.reduceToNat, ha.1,
-    cast_mod64 _ ha.2.1]
-  rw [exec_regWrite_nat _ _ _ (by omega) (by decide)]
+    cast_mod643 _ ha.2.1]
+  rw [exec_regWrite_nat3 _ _ _ (by omega) (by decide)]
   exec_simp [h.cached.dynPl, hp.1]
-  rw [exec_regWrite_nat _ _ _ (by omega) (by decide)]
+  rw [exec_regWrite_nat3 _ _ _ (by omega) (by decide)]
   exec_simp [h.cached.features, hf.1]
-  rw [exec_regWrite_nat _ _ _ (by omega) (by decide)]
+  rw [exec_regWrite_nat3 _ _ _ (by omega) (by decide)]
   refine Post.of_reach (by reach h.wf) h.wf ?_ rfl ?_
   · rw [Radio.w_enAA _ _ ha.2.1, Radio.w_dynpd _ _ hp.2 (by exact h.ok.vis),
       Radio.w_feature _ _ hf.2 (by exact h.ok.vis)]
